@@ -313,6 +313,12 @@ def run(prog, chk):
             r3.ok(w, "sequences: %s" % "; ".join(sorted(seqs)))
 
     absent_handler_rule(prog, chk)
+    r6 = chk.rule("R6-end-callback-after-a-childs-skip-siblings", "after a child walk answered SKIP_SIBLINGS (and nothing answered END, an "
+                  "error, or SKIP_CURRENT at the element's own start) the walker function still makes the element's end callback: the "
+                  "directive suppresses the answering element's descendants and remaining siblings only", floor=4)
+    from .. import walkend
+    if walkend.rule(prog, r6, runs) < 4:
+        raise Broken("fewer than 4 (walker, child) pairs with a SKIP_SIBLINGS answer observed")
 
     # the packet iterator walk_loop opens is closed or aborted exactly once on every path (shared with C06 R4)
     from . import c06
@@ -378,9 +384,22 @@ def absent_handler_rule(prog, chk):
     from .. import loops
     r5 = chk.rule("R5-absent-handler-affects-only-its-own-call", "in the walker, a branch on whether a handler function is installed "
                   "controls the call of that handler only: no other callback and no traversal call depends on it", floor=8)
-    for w in ("cif_walk", "walk_container", "walk_loops", "walk_loop", "walk_packet", "walk_item"):
+    walkers = ("cif_walk", "walk_container", "walk_loops", "walk_loop", "walk_packet", "walk_item")
+    # the callbacks a walker function can make, directly or through the walkers it calls
+    makes = {}
+    for w in walkers:
         if not prog.has_fn(w):
             raise Broken("walker function %s not found" % w)
+        makes[w] = {indirect_target(c) for (b, i, r, c) in prog.fn(w).calls() if (indirect_target(c) or "").startswith("handle_")}
+    changed = True
+    while changed:
+        changed = False
+        for w in walkers:
+            for (b, i, r, c) in prog.fn(w).calls():
+                if c.get("callee") in makes and not makes[c["callee"]] <= makes[w]:
+                    makes[w] |= makes[c["callee"]]
+                    changed = True
+    for w in walkers:
         fn = prog.fn(w)
         for b in fn.blocks.values():
             if len(b.succs) != 2:
@@ -407,6 +426,8 @@ def absent_handler_rule(prog, chk):
                             tgt = indirect_target(x)
                             if tgt in tested:
                                 continue
+                            if x.get("callee") in makes and makes[x["callee"]] and makes[x["callee"]] <= tested:
+                                continue        # a helper that makes no callback but the tested one(s)
                             acts.append((x, tgt or x.get("callee") or "?"))
             key = "%s:L%s:%s" % (w, cnd.get("l"), ",".join(sorted(tested)))
             if acts:
